@@ -375,6 +375,31 @@ func AnalyseMethod(fset *token.FileSet, fd *ast.FuncDecl) *Method {
 			m.UsesRaw = true
 		}
 	}
+	// the typed decode must go into a LOCAL shadow type (declared in this method, hence without methods): a value of a
+	// package-level type that has this very method would re-enter it without bound
+	local := map[string]bool{}
+	for _, s := range fd.Body.List {
+		ds, ok := s.(*ast.DeclStmt)
+		if !ok {
+			continue
+		}
+		gd, ok := ds.Decl.(*ast.GenDecl)
+		if !ok {
+			continue
+		}
+		for _, sp := range gd.Specs {
+			switch x := sp.(type) {
+			case *ast.TypeSpec:
+				local[x.Name.Name] = true
+			case *ast.ValueSpec:
+				if len(x.Names) == 1 && x.Names[0].Name == "plain" && x.Type != nil {
+					if id, ok := x.Type.(*ast.Ident); ok && !local[id.Name] {
+						m.Problems = append(m.Problems, "A-AON: the typed decode goes into a value of the package-level type "+id.Name+" instead of a local shadow type: if that type has this method the decode re-enters it without bound")
+					}
+				}
+			}
+		}
+	}
 	// A-AON: final assignment then return nil
 	n := len(fd.Body.List)
 	if m.FinalIdx < 0 {
